@@ -138,6 +138,8 @@ def _run_case(case):
     dists = [i for i in ("d.rev", "mvn", "detn") if i in dic]
 
     extra_leaves = ["tree.heights"] if gname == "time-plain" and "tree.heights" in dic else []
+    tviews = [i for i, o in dic.items() if isinstance(o, ViewParameter) and isinstance(o.parameter, TransformedParameter)]
+    tview_written = False
 
     def leaf_values():
         return {i: dic[i].tensor.detach().clone().tolist() for i in list(leaves) + extra_leaves}
@@ -168,7 +170,12 @@ def _run_case(case):
             if bad:
                 cls = type(dic[k.split(":", 1)[1].split(".")[0] if k.startswith("attr:") else k.split(":", 1)[1]]).__name__ if True else ""
                 last = history[-1] if history else None
-                V.append(tt.viol("C11:stale:%s:%s" % (gname, k), "%s after %s: %s is %s, a freshly built copy with the same parameter values gives %s (last operation: %s)"
+                sig = "C11:stale:%s:%s" % (gname, k)
+                if tview_written:
+                    # mechanism: a view's setter writes into its parent's tensor; when the parent is a TransformedParameter that is the
+                    # cached transformed value, not the parameter underneath: the value is neither propagated down nor survives the next update
+                    sig = "C11:assignment-through-a-view-of-a-transformed-parameter-writes-into-its-cache"
+                V.append(tt.viol(sig, "%s after %s: %s is %s, a freshly built copy with the same parameter values gives %s (last operation: %s)"
                                  % (gname, where, k, np.asarray(x).reshape(-1)[:3], np.asarray(y).reshape(-1)[:3], last), history=history[-12:], cls=cls))
                 return False
         return True
@@ -182,7 +189,7 @@ def _run_case(case):
 
     ok = True
     for step in range(case["length"]):
-        op = str(rng.choice(OPS + (["heights-shape"] * 3 if extra_leaves else [])))
+        op = str(rng.choice(OPS + (["heights-shape"] * 3 if extra_leaves else []) + (["assign-view-of-transformed"] if tviews else [])))
         desc = None
         try:
             if op == "assign":
@@ -252,6 +259,13 @@ def _run_case(case):
                     else:
                         oper.reject()
                 desc = "%s step + %s on %s" % (type(oper).__name__, op.split("-")[1], pid)
+            elif op == "assign-view-of-transformed" and tviews:
+                vid = str(rng.choice(tviews))
+                v = dic[vid]
+                # (scaled up: the zoo's views of transformed parameters are a log-value and the root height - both stay in their domains)
+                v.tensor = v.tensor.detach() * float(np.exp(abs(rng.normal(0, 0.2))))
+                tview_written = True
+                desc = "assign through view %s of a transformed parameter" % vid
             elif op == "heights-shape" and extra_leaves:
                 # the heights of a plain time tree get another sample shape (what Distribution.sample(sample_shape) does to them)
                 h = dic["tree.heights"]
